@@ -117,7 +117,7 @@ def build_merge_late(recs, delim, probe=None):
     return conv
 
 
-EXOTIC_DELIMS = ["%3A", "%", "%%", "{}", "\\", " ", "é", "a"]   # characters that are special to formatting / escaping / the alphabet itself
+EXOTIC_DELIMS = ["%3A", "%", "%%", "{}", "\\", " ", "é", "a", "#", "_", "="]   # characters that are special to formatting / escaping / the alphabet itself
 
 
 def dip_configs():
@@ -138,7 +138,7 @@ def units(tier, seed, nchunks=128, hist_depth=None, delim_in_prefix=False):
     out = [{"tier": tier, "cfgs": [recs_to_json(c) for c in ch]} for ch in chunks(cfgs, nchunks)]
     # a small configuration set under unusual delimiters
     r0, r1, _ = record_pool()
-    small = [[r] for r in r0 if "a" not in r.prefix] + [[a, b] for a, b in it.combinations([r for r in r0 if r.prefix in ("", "x") and r.uri_prefix in ("x", "x:", "xy")], 2) if Model([a, b]).valid()]
+    small = [[r] for r in r0 if "a" not in r.prefix] + [[a, b] for a, b in it.combinations([r for r in r0 if r.prefix in ("", "x") and r.uri_prefix in ("x", "x:", "xy", "a:", "a:x")], 2) if Model([a, b]).valid()]
     out.append({"tier": tier, "cfgs": [recs_to_json(c) for c in small], "delims": EXOTIC_DELIMS, "qlen": 2})
     if delim_in_prefix:
         out.append({"tier": tier, "cfgs": [recs_to_json(c) for c in dip_configs()], "delims": DELIMS})
